@@ -31,8 +31,12 @@ var niCompilers = []compiler.Name{fiatshamir.Name, fischlin.Name, randfischlin.N
 
 // dkgScript: session setup then the chosen DKG, all through real runners.
 func dkgScript[G algebra.PrimeGroupElement[G, S], S algebra.PrimeFieldElement[S]](
-	name string, id sim.ID, spec *acSpec, kit *groupKit[G, S], proto string, comp compiler.Name, ns string, rnd io.Reader,
+	name string, id sim.ID, spec *acSpec, kit *groupKit[G, S], proto string, comp compiler.Name, ns string, rnd io.Reader, rndProto ...io.Reader,
 ) script {
+	prnd := rnd
+	if len(rndProto) > 0 && rndProto[0] != nil {
+		prnd = rndProto[0] // separate stream for the protocol stage (C07 varies it independently of the session stage)
+	}
 	return script{name: name, party: id, fn: func(ctx context.Context, rt *network.Router) (any, error) {
 		sr, err := session.NewSessionRunner(id, quorumOf(spec.ids), rnd)
 		if err != nil {
@@ -45,9 +49,9 @@ func dkgScript[G algebra.PrimeGroupElement[G, S], S algebra.PrimeFieldElement[S]
 		var r network.Runner[*mpc.BaseShard[G, S]]
 		switch proto {
 		case "gennaro":
-			r, err = gennaro.NewRunner(sctx, kit.group, spec.lib, comp, rnd)
+			r, err = gennaro.NewRunner(sctx, kit.group, spec.lib, comp, prnd)
 		case "canetti":
-			r, err = canetti.NewRunner(sctx, spec.lib, kit.group, rnd)
+			r, err = canetti.NewRunner(sctx, spec.lib, kit.group, prnd)
 		default:
 			return nil, fmt.Errorf("unknown dkg %q", proto)
 		}
